@@ -445,6 +445,12 @@ func (b *c8BB) first(tok []byte, seq uint32, etag []byte, szx int, dt int64) int
 	return b.nf - 1
 }
 
+// firstDead: a first block for a token under which no observation is registered (no transfer is opened)
+func (b *c8BB) firstDead(tok []byte, seq uint32, etag []byte, szx int) {
+	b.first(tok, seq, etag, szx, 0)
+	b.nf--
+}
+
 // block: block num of transfer k (answer to the GET under the drawn token: no Observe option)
 func (b *c8BB) block(k int, etag []byte, szx, num int, more bool, plen int) {
 	b.tag++
@@ -571,6 +577,33 @@ func c8GenBwFixed(rng *Rng, v int) []c8Op {
 		b.block(k, e2, 0, 0, true, -1)
 		b.ops[len(b.ops)-1].dt = 129000
 		b.block(k, e2, 0, 1, false, -1)
+	case 11: // what the block-wise layer refuses: a first block for a token nobody observes, a last block with
+		// NUM > 0 and nothing to append it to, blocks under a token that was never drawn, after the transfer is over
+		b.reg(tok)
+		b.small(tok, 1, nil, 0)
+		b.firstDead(c8Tok(rng, 3), 2, e1, 0)
+		b.tag++
+		b.ops = append(b.ops, c8Op{kind: 'W', fref: -1, tok: tok, code: 69, hasObs: true, obs: []byte{3}, hasB2: true, szx: 0, num: 2, more: false, typ: 'n', tag: b.tag, plen: 5})
+		b.block(3, e1, 0, 1, false, -1) // f3 is never drawn
+		k := b.first(tok, 4, e1, 0, 0)
+		b.block(k, e1, 0, 1, false, -1)
+		b.block(k, e1, 0, 1, false, -1)
+		b.block(k, e1, 0, 0, true, -1)
+		b.tag++
+		b.ops = append(b.ops, c8Op{kind: 'W', fref: -1, tok: tok, code: 69, hasObs: true, obs: []byte{5}, hasB2: true, szx: 0, num: 0, more: false, typ: 'c', tag: b.tag, plen: 9})
+		b.small(tok, 6, nil, 0)
+	case 12: // the registration is refused (4.04) while its first, block-wise, answer ... and a 2.03 first block
+		b.reg(tok)
+		b.tag++
+		b.ops = append(b.ops, c8Op{kind: 'W', fref: -1, tok: tok, code: 132, typ: 'n', tag: b.tag, plen: 4})
+		b.firstDead(tok, 2, e1, 0)
+		t2 := c8Tok(rng, 1+rng.Intn(8))
+		b.reg(t2)
+		k := b.first(t2, 7, e1, 0, 0)
+		b.ops[len(b.ops)-1].code = 67
+		b.block(k, e1, 0, 1, false, -1)
+		b.small(t2, 8, nil, 0)
+		b.small(t2, 7, nil, 0)
 	default: // two observations, each with a transfer that restarts
 		t2 := c8Tok(rng, 1+rng.Intn(8))
 		b.reg(tok)
@@ -658,6 +691,9 @@ func c8GenBwRandom(rng *Rng) []c8Op {
 			} else if x.have < 0 {
 				x.have = 0
 			}
+		case dead[i] && rng.Chance(15):
+			seq[i] = (seq[i] + 1) & (1<<24 - 1)
+			b.firstDead(toks[i], seq[i], etags[rng.Intn(4)], rng.Intn(2))
 		case !dead[i] && rng.Chance(35):
 			seq[i] = (seq[i] + 1) & (1<<24 - 1)
 			szx := rng.Intn(2)
